@@ -100,6 +100,9 @@ type attempt struct {
 	at, end time.Time
 	head    string
 	reqID   string
+	// decoder state of the chunked POST body, so that reading can be resumed
+	inChunk    int
+	afterChunk bool
 }
 
 type faultServer struct {
@@ -162,25 +165,33 @@ func reset(c net.Conn) {
 	c.Close()
 }
 
-// readDecoded reads up to limit decoded body bytes of a chunked request body (limit<0: until the end).
+// readDecoded reads up to limit decoded body bytes of a chunked request body (limit<0: until the end). It can be
+// called again for the same attempt and then continues where it stopped (a.inChunk bytes of the current chunk are left).
 func readDecoded(br *bufio.Reader, limit int, a *attempt, mu *sync.Mutex) (complete bool) {
 	for {
-		line, err := br.ReadString('\n')
-		if err != nil {
-			a.rawErr = err
-			return false
+		if a.inChunk == 0 {
+			if a.afterChunk {
+				br.ReadString('\n') // CRLF behind the chunk data
+				a.afterChunk = false
+			}
+			line, err := br.ReadString('\n')
+			if err != nil {
+				a.rawErr = err
+				return false
+			}
+			var n int
+			if _, err := fmt.Sscanf(strings.TrimSpace(line), "%x", &n); err != nil {
+				a.rawErr = fmt.Errorf("bad outer chunk size %q", line)
+				return false
+			}
+			if n == 0 {
+				br.ReadString('\n')
+				return true
+			}
+			a.inChunk = n
 		}
-		var n int
-		if _, err := fmt.Sscanf(strings.TrimSpace(line), "%x", &n); err != nil {
-			a.rawErr = fmt.Errorf("bad outer chunk size %q", line)
-			return false
-		}
-		if n == 0 {
-			br.ReadString('\n')
-			return true
-		}
-		for n > 0 {
-			want := n
+		for a.inChunk > 0 {
+			want := a.inChunk
 			if want > 4096 {
 				want = 4096
 			}
@@ -200,13 +211,13 @@ func readDecoded(br *bufio.Reader, limit int, a *attempt, mu *sync.Mutex) (compl
 			mu.Lock()
 			a.raw = append(a.raw, buf[:k]...)
 			mu.Unlock()
+			a.inChunk -= k
 			if err != nil {
 				a.rawErr = err
 				return false
 			}
-			n -= k
 		}
-		br.ReadString('\n')
+		a.afterChunk = true
 	}
 }
 
@@ -552,7 +563,7 @@ func runCase(t vh.TB, c *Case) vh.Outcome {
 		if !acked {
 			// a failed attempt that had already consumed >= 4096 bytes cannot be replayed: no retry may follow
 			if len(raw) >= 4096+1 && i+1 < len(attempts) {
-				o.Err = fmt.Errorf("attempt %d failed after %d bytes of the serialised response had been sent (more than the 4096-byte replay buffer) and yet attempt %d followed", i+1, len(raw), i+2)
+				o.Err = fmt.Errorf("attempt %d failed after %d bytes of the serialised response had been sent (more than the 4096-byte replay buffer) and yet attempt %d followed (%s)", i+1, len(raw), i+2, describe(srv, attempts))
 				return o
 			}
 			continue
